@@ -2143,7 +2143,11 @@ class WBEMConnection:  # pylint: disable=too-many-instance-attributes
             elif isinstance(obj, (CIMClass, CIMInstance)):
                 return 'string'
             elif isinstance(obj, list):
-                return infer_type(obj[0], param_name) if obj else None
+                # The first array item that is not NULL determines the type
+                for item in obj:
+                    if item is not None:
+                        return infer_type(item, param_name)
+                return None
             elif obj is None:
                 return None
             if isinstance(obj, int):
@@ -2173,11 +2177,12 @@ class WBEMConnection:  # pylint: disable=too-many-instance-attributes
                 # CIMClass.tocimxml() always ignores path
                 return _cim_xml.VALUE(obj.tocimxml().toxml())
             if isinstance(obj, list):
-                if obj and isinstance(obj[0], (CIMClassName, CIMInstanceName)):
-                    return _cim_xml.VALUE_REFARRAY([paramvalue(x) for x in obj])
-                return _cim_xml.VALUE_ARRAY(
-                    [_cim_xml.VALUE_NULL() if x is None else paramvalue(x)
-                     for x in obj])
+                array_xml = [_cim_xml.VALUE_NULL() if x is None
+                             else paramvalue(x) for x in obj]
+                if any(isinstance(x, (CIMClassName, CIMInstanceName))
+                       for x in obj):
+                    return _cim_xml.VALUE_REFARRAY(array_xml)
+                return _cim_xml.VALUE_ARRAY(array_xml)
             # The type has been checked in infer_type(), so we can assert
             assert obj is None
 
@@ -2185,8 +2190,12 @@ class WBEMConnection:  # pylint: disable=too-many-instance-attributes
             """
             Infer the embedded_object value of a parameter value.
             """
-            if isinstance(obj, list) and obj:
-                return infer_embedded_object(obj[0])
+            if isinstance(obj, list):
+                # The first array item that is not NULL determines the result
+                for item in obj:
+                    if item is not None:
+                        return infer_embedded_object(item)
+                return None
 
             if isinstance(obj, CIMClass):
                 return 'object'
